@@ -8,8 +8,11 @@ collision-freeness of the hash, unreachability of the panic branch. -/
 namespace F3.Merkle
 open F3.Codec
 
-/-- What the theorems assume of the hash (keccak-256 in the implementation): collision-free, 32-byte
-output, never the all-zero digest. -/
+/-- The *idealised* hash: globally injective, 32-byte output, never the all-zero digest. No function
+with 32-byte output on byte strings is injective, so no real hash (and neither executable hash of
+`F3.Model.CodecHash`) satisfies this; it is satisfiable in the model only because `Bytes = List Nat`.
+Used by the idealised-hash corollaries only; the primary results are the reductions of
+`F3/Proofs/CodecCollision.lean`, which assume nothing of the hash. -/
 structure HashOK (H : Bytes → Bytes) : Prop where
   inj : ∀ a b, H a = H b → a = b
   len : ∀ a, (H a).length = 32
